@@ -372,7 +372,10 @@ func runWal(res *Result, drv *Driver, seed uint64, n int, tier string, only int)
 		"one evaluation = one model comparison or one oracle evaluation; non-trivial = at least one record appended; distinct = distinct (program, options) strings"
 	// cases n .. n+n/10-1: logs whose writer factory builds a direct-I/O writer (walDirectOne; generated from a second
 	// random stream, the cases 0..n-1 are what they were)
-	for i := 0; i < n+n/10; i++ {
+	res.Rule += "; " + walDirectMultiRule
+	// cases n+n/10 .. n+n/10+n/20-1: direct-I/O logs whose files receive more than one write buffer (walDirectMultiOne; a
+	// third random stream)
+	for i := 0; i < n+n/10+n/20; i++ {
 		if only >= 0 && i != only {
 			continue
 		}
@@ -380,6 +383,13 @@ func runWal(res *Result, drv *Driver, seed uint64, n int, tier string, only int)
 		dir := filepath.Join(base, fmt.Sprintf("c%d", i))
 		if err := os.Mkdir(dir, 0o755); err != nil {
 			return err
+		}
+		if i >= n+n/10 {
+			if err := walDirectMultiOne(res, NewRng(seed^0x6d756c7469626c6b, uint64(i)), i, i-n-n/10, dir, tier); err != nil {
+				return err
+			}
+			_ = os.RemoveAll(dir)
+			continue
 		}
 		if i >= n {
 			if err := walDirectOne(res, NewRng(seed^0x646972656374696f, uint64(i)), i, dir, tier); err != nil {
@@ -1047,6 +1057,234 @@ func walDirectOne(res *Result, r *Rng, idx int, base string, tier string) error 
 	res.Evaluations++
 	if rerr != nil || !walMatchAttempts(att, all, got) {
 		res.Violate(idx, "C07", sigWal(c, "direct-io:replay-after-close"), fmt.Sprintf("replay of the closed log: want ok and the %d records whose append returned nil; got %s", nOK, replayStr(got, rerr)), cs)
+	}
+	return nil
+}
+
+// ---------------------------------------------------------------------------------------------
+// direct-I/O logs whose files receive MORE than one write buffer (C07, oracle only)
+//
+// The block-aligned writer writes its whole buffer every time it is full and once more, zero padded, when the file is
+// closed (Close, forced Rotate, size-triggered rotation).  What the last write leaves behind the last record is what the
+// replayer has to recognise as the end of the file, and it depends on what the buffer held before: these cases fill the
+// buffer k >= 1 times with non-zero bytes and end the file a few bytes (or a few blocks) after a refill.
+
+const walDirectMultiRule = "n/20 more cases (oracle only) with direct-I/O writers whose buffer holds 2 ... 16 blocks: every log file receives more than one buffer of non-zero record bytes and is ended " +
+	"(Close / forced Rotate / size-triggered rotation) a few bytes, a few hundred bytes or several blocks after a refill; replayed after every rotation, at sampled instants and after Close"
+
+func walDirectMultiOne(res *Result, r *Rng, idx, j int, base string, tier string) error {
+	res.Cases++
+	res.Stat("direct-io-multi-case")
+	if ok, err := recordio.IsDirectIOAvailable(); err != nil || !ok {
+		res.Stat("direct-io-multi-case:skipped-direct-io-not-available-on-this-file-system")
+		return nil
+	}
+	comp := []int{recordio.CompressionTypeNone, recordio.CompressionTypeSnappy, recordio.CompressionTypeGZIP, recordio.CompressionTypeLzw}[j%4]
+	buf := []int{8192, 8192, 12288, 16384, 32768, 65536}[r.Intn(6)]
+	sizeTriggered := (j/4)%2 == 1
+	nFiles := 1 + r.Intn(3)
+	kMax := 3
+	if buf*kMax > 100000 {
+		kMax = 1 + 100000/buf/2
+	}
+	var ops []walOp
+	c := &walCase{comp: comp, buf: buf}
+	pickRem := func() (int, string) {
+		switch x := r.Intn(100); {
+		case x < 40:
+			return 1 + r.Intn(24), "a-few-bytes"
+		case x < 85 || buf == 8192 && x < 92:
+			return 25 + r.Intn(4000), "within-the-first-block"
+		case x < 92:
+			return 4097 + r.Intn(buf-8192+1), "in-a-middle-block"
+		default:
+			return buf - 4096 + 1 + r.Intn(4000), "in-the-last-block (control)"
+		}
+	}
+	var endKinds []string
+	if sizeTriggered {
+		// the limit sits a little behind a multiple of the buffer size: every file is rotated away within the first block
+		// after the k-th refill (rule: rotate when Size() + len(record) > limit; records of at most 600 bytes)
+		k := 1 + r.Intn(kMax)
+		c.max = uint64(k*buf + 700 + r.Intn(1200))
+		size := 8
+		files := 0
+		for files < nFiles {
+			p := rioNonZero(r, 40+r.Intn(560))
+			if uint64(size+len(p)) > c.max {
+				files++
+				size = 8
+				endKinds = append(endKinds, "size-triggered-rotation")
+			}
+			size += refRecordLen(comp, p)
+			kind := "a"
+			if r.Chance(4) {
+				kind = "s" // refused by the direct-I/O writer: nothing is written
+				size -= refRecordLen(comp, p)
+			}
+			ops = append(ops, walOp{kind, p})
+		}
+		res.Stat(fmt.Sprintf("direct-io-multi:size-triggered:limit=%d-buffers+<2KiB", k))
+	} else {
+		c.max = uint64(1 << 20)
+		if r.Chance(30) {
+			c.defaultMax = true
+			c.max = wal.DefaultMaxWalSize
+		}
+		for f := 0; f < nFiles; f++ {
+			k := 1 + r.Intn(kMax)
+			rem, remKind := pickRem()
+			recs, end := alignedAim(r, comp, 8, buf, k, rem, buf/2-1)
+			for _, p := range recs {
+				ops = append(ops, walOp{"a", p})
+				if r.Chance(3) {
+					ops = append(ops, walOp{"s", rioNonZero(r, 1+r.Intn(100))})
+				}
+			}
+			res.Stat("direct-io-multi:file-ends:" + remKind)
+			res.Stat(fmt.Sprintf("direct-io-multi:file-ends-after-buffers=%d", end/buf))
+			if f < nFiles-1 {
+				ops = append(ops, walOp{kind: "r"})
+				endKinds = append(endKinds, "forced-rotation")
+			}
+		}
+	}
+	endKinds = append(endKinds, "close")
+	for _, k := range endKinds {
+		res.Stat("direct-io-multi:file-ended-by:" + k)
+	}
+	c.ops = ops
+	// the case, written out without the megabyte of hex: sizes, and the contents for short programs
+	var sb strings.Builder
+	fmt.Fprintf(&sb, "direct-io multi-buffer max=%d defaultMax=%v buf=%d (%d blocks) comp=%d ops(kind:payload bytes, non-zero random bytes from the case's random stream)=", c.max, c.defaultMax, buf, buf/4096, comp)
+	for i, o := range ops {
+		if i > 0 {
+			sb.WriteByte(',')
+		}
+		if o.kind == "r" {
+			sb.WriteString("r")
+		} else {
+			fmt.Fprintf(&sb, "%s:%d", o.kind, len(o.rec))
+		}
+	}
+	cs := sb.String()
+	res.Stat(fmt.Sprintf("direct-io-multi:comp=%d", comp))
+	res.Stat(fmt.Sprintf("direct-io-multi:block-buffer=%d", buf))
+	res.Sample(cs)
+	dir := filepath.Join(base, "log")
+	if err := os.MkdirAll(dir, 0o755); err != nil {
+		return err
+	}
+	wopts := []wal.Option{wal.BasePath(dir), wal.WriterFactory(func(path string) (recordio.WriterI, error) {
+		return recordio.NewFileWriter(recordio.Path(path), recordio.CompressionType(comp), recordio.BufferSizeBytes(buf), recordio.DirectIO())
+	})}
+	if !c.defaultMax {
+		wopts = append(wopts, wal.MaximumWalFileSizeBytes(c.max))
+	}
+	opts, err := wal.NewWriteAheadLogOptions(wopts...)
+	if err != nil {
+		return err
+	}
+	var w wal.WriteAheadLogI
+	if err := safely(func() error { var e error; w, e = wal.NewWriteAheadLog(opts); return e }); err != nil {
+		res.Violate(idx, "C07", sigWal(c, "direct-io-multi:new-failed"), err.Error(), cs)
+		return nil
+	}
+	rbuf := []int{0, 64, 512, 4096, 65536}[r.Intn(5)]
+	rbufKill := rbuf
+	if rbuf == 0 {
+		rbufKill = 4096
+	}
+	var att []walAttempt
+	filesNow := func() int {
+		names, err := walList(dir)
+		if err != nil {
+			return -1
+		}
+		return len(names)
+	}
+	sizesNow := func() string {
+		s, _, _ := walSizes(dir)
+		return s
+	}
+	killNow := func(after string) bool {
+		got, rerr := walReplayReal(dir, rbufKill)
+		res.Evaluations++
+		none := make([]bool, len(att))
+		switch {
+		case rerr != nil:
+			res.Violate(idx, "C07", sigWal(c, "direct-io-multi:replay-fails-before-close"), fmt.Sprintf("kill after %s (files on disk: %s): replay of what is on disk failed after %d records: %v", after, sizesNow(), len(got), rerr), cs)
+		case !walMatchAttempts(att, none, got):
+			res.Violate(idx, "C07", sigWal(c, "direct-io-multi:replay-not-a-prefix-before-close"), fmt.Sprintf("kill after %s (files on disk: %s): replay delivered %s, no prefix of the %d appended records", after, sizesNow(), recsPrint(got), len(att)), cs)
+		default:
+			return true
+		}
+		return false
+	}
+	good := true
+	nf := filesNow()
+	for oi, o := range ops {
+		var opErr error
+		switch o.kind {
+		case "a":
+			opErr = safely(func() error { return w.Append(o.rec) })
+		case "s":
+			opErr = safely(func() error { return w.AppendSync(o.rec) })
+		case "r":
+			opErr = safely(func() error { _, e := w.Rotate(); return e })
+		}
+		what := map[string]string{"a": "append", "s": "appendSync", "r": "rotate"}[o.kind]
+		switch {
+		case opErr == nil:
+			res.Stat("direct-io-multi:" + what + ":ok")
+		case o.kind == "s" && errors.Is(opErr, recordio.DirectIOSyncWriteErr):
+			res.Stat("direct-io-multi:" + what + ":refused-by-the-direct-io-writer")
+		default:
+			res.Violate(idx, "C07", sigWal(c, "direct-io-multi:"+what+"-failed"), fmt.Sprintf("op %d (%s of %d bytes): %v", oi, what, len(o.rec), opErr), cs)
+			good = false
+		}
+		if !good {
+			break
+		}
+		if o.kind != "r" {
+			att = append(att, walAttempt{rec: o.rec, ok: opErr == nil, synced: o.kind == "s"})
+		}
+		// what a kill would leave: after every rotation (forced or by the size rule), and at sampled instants
+		if n2 := filesNow(); n2 != nf {
+			nf = n2
+			res.Stat("direct-io-multi:replay-after-rotation")
+			good = killNow(fmt.Sprintf("op %d (%s), which rotated the log", oi, what))
+		} else if r.Chance(4) {
+			good = killNow(fmt.Sprintf("op %d (%s)", oi, what))
+		}
+		if !good {
+			break
+		}
+	}
+	closeErr := safely(func() error { return w.Close() })
+	if !good {
+		return nil
+	}
+	if closeErr != nil {
+		res.Violate(idx, "C07", sigWal(c, "direct-io-multi:close-failed"), closeErr.Error(), cs)
+		return nil
+	}
+	nOK := 0
+	all := make([]bool, len(att))
+	for i, a := range att {
+		all[i] = a.ok
+		if a.ok {
+			nOK++
+		}
+	}
+	if nOK > 0 {
+		res.NoteNontrivial(cs)
+	}
+	res.StatN("direct-io-multi:files", filesNow())
+	got, rerr := walReplayReal(dir, rbuf)
+	res.Evaluations++
+	if rerr != nil || !walMatchAttempts(att, all, got) {
+		res.Violate(idx, "C07", sigWal(c, "direct-io-multi:replay-after-close"), fmt.Sprintf("replay of the closed log (files: %s): want ok and the %d records whose append returned nil; got %s (%v)", sizesNow(), nOK, replayStr(got, rerr), rerr), cs)
 	}
 	return nil
 }
